@@ -776,6 +776,11 @@ def cvCall (safe : Bool) (d : HostDesc) (a b : CV) (st : CState) : Except Exc CV
 
 def pureOp {α : Type} (r : Except Exc α) : HRes CState α := fun st => (r, st)
 
+/-- the evaluator-issued `getattr(a, n)` (from `get_member`): like format traversal, a read on a sentinel is recorded
+    in the host state -/
+def evalGetattr (d : HostDesc) (a : CV) (n : String) : HRes CState CV := fun st =>
+  (cvGetattr d a n, match a with | .sent id => st ++ [(id, n)] | _ => st)
+
 /-- `safe = true` is the current code; `safe = false` is a formatter WITHOUT the underscore refusal of
     `_SafeFormatter.get_field` (the pre-fix behaviour of `str.format`), kept for the witness in Props/C19. -/
 def concreteHostWith (safe : Bool) (d : HostDesc) : Host CState CV where
@@ -784,7 +789,7 @@ def concreteHostWith (safe : Bool) (d : HostDesc) : Host CState CV where
   ofStr := CV.str
   ofBool := CV.bool
   mkColl := fun c xs => match c with | .tuple => CV.tuple xs | .list => CV.list xs
-  getattr := fun a n => pureOp (cvGetattr d a n)
+  getattr := evalGetattr d
   call := cvCall safe d
   getitem := fun a b => pureOp (cvGetitem a b)
   neg := fun a => pureOp (cvNeg a)
